@@ -245,6 +245,21 @@ func (v Value) number() _number {
 }
 
 // ECMA 262: 9.5.
+// floatModulo2To32 is sign(value) * floor(abs(value)) modulo 2^32 for any
+// finite value (ES5 9.5, 9.6, 9.7), including those beyond the int64 range.
+func floatModulo2To32(value float64) uint32 {
+	value = math.Trunc(value)
+	if value >= floatMinInt64 && value < floatMaxInt64 {
+		// Convert to int64 first to force correct wrapping.
+		return uint32(int64(value))
+	}
+	value = math.Mod(value, 4294967296)
+	if value < 0 {
+		value += 4294967296
+	}
+	return uint32(value)
+}
+
 func toInt32(value Value) int32 {
 	switch value := value.value.(type) {
 	case int8:
@@ -260,8 +275,7 @@ func toInt32(value Value) int32 {
 		return 0
 	}
 
-	// Convert to int64 before int32 to force correct wrapping.
-	return int32(int64(floatValue))
+	return int32(floatModulo2To32(floatValue))
 }
 
 func toUint32(value Value) uint32 {
@@ -283,8 +297,7 @@ func toUint32(value Value) uint32 {
 		return 0
 	}
 
-	// Convert to int64 before uint32 to force correct wrapping.
-	return uint32(int64(floatValue))
+	return floatModulo2To32(floatValue)
 }
 
 // ECMA 262 - 6.0 - 7.1.8.
@@ -303,8 +316,7 @@ func toUint16(value Value) uint16 {
 		return 0
 	}
 
-	// Convert to int64 before uint16 to force correct wrapping.
-	return uint16(int64(floatValue))
+	return uint16(floatModulo2To32(floatValue))
 }
 
 // toIntSign returns sign of a number converted to -1, 0 ,1.
